@@ -268,6 +268,16 @@ def variants(ctx, rule="R05.7"):
 
 
 def run(ctx):
+    from .C14 import no_shared_fields
+
+    no_shared_fields(ctx, "R05.12", "krige/base.py", "Krige", {"_cond_pos", "_cond_val"}, floor=2)  # matrix is built once, data re-read on every call
+    from . import C15_kernels as _K
+
+    # the summation kernels compute the full sums k^T K^-1 y and k^T K^-1 k: loop extents, accumulator resets, zero-initialised outputs, no guards (shared with C15)
+    _K.accumulator_reset(ctx, rule="R05.11")
+    _K.full_extent(ctx, rule="R05.11")
+    _K.zero_init(ctx, rule="R05.11")
+    _K.branch_free_krige_sums(ctx, rule="R05.11")
     from ..small import none_default_rule
     from .C20 import closure_rule
 
